@@ -413,7 +413,7 @@ def run_obligation(ob, scratch, tier, kf_defines, prop=None):
     res["kf_total"] = res["classes"].get("known-finding", {}).get("total", 0)
     res["failures"] = real
     minp = ob.get("min_props", 1)
-    if res.get("unknown"):
+    if res.get("unknown") and not real:
         res["reason"] = "cbmc left %d properties without verdict: %s" % (len(res["unknown"]), "; ".join(res["unknown"][:3]))
         res["failures"] = []
         return res
